@@ -76,7 +76,7 @@ def run(ctx: Context) -> None:
     _infra.constant_name_lookups(ctx, 'R17.6', ['time_coordinate'])
     _infra.all_variables_visited(ctx, 'R17.6')
     _infra.default_calendar(ctx, 'R17.6')
-    ctx.assume("cftime 1.6.5 accepts a colon separated time zone designator only as [+-]HH:MM (checked once against the installed version; '+8:00' and '-0:30' are read as offset 0)")
+    ctx.assume("cftime 1.6.5 reads a UTC offset only with a two digit hour ([+-]HH, [+-]HHMM, [+-]HH:MM; checked once against the installed version): '+8', '+8:00' and '-0:30' are read as offset 0, which is why R17.1 demands the padding")
     ctx.assume("NOT decided: identity of values and polygons after the netCDF round trip (xarray / netCDF4 at run time)")
 
     fi = ctx.func(f"{UTILS}.format_time_units_for_ems")
@@ -89,6 +89,57 @@ def run(ctx: Context) -> None:
 
     def is_source(n: ast.AST) -> bool:
         return isinstance(n, ast.Subscript) and const_value(n.slice, None) == -1 and flow.reaches(n.value, lambda m: m is pc, depth=6)
+
+    # ---- the string that is parsed: the caller's units, with a one digit offset hour padded (cftime reads '+8' or '-3:30' as offset 0)
+    split = [c for c in calls_in(fi) if (callee(ctx, fi, c) or '').endswith('cftime._datesplit')]
+    subs = [c for c in calls_in(fi) if callee(ctx, fi, c) == 're.sub' and len(c.args) == 3]
+    ok_split = len(split) == 1 and len(split[0].args) == 1 and flow.canon(split[0].args[0]) == ('param', fi.params[0])
+    ctx.check('R17.1', ok_split, "the caller's unit string is split into period and date once", fi, split[0] if split else fi.node)
+    pad_ok, pad_why = False, 'no re.sub on the date string'
+    if len(subs) == 1 and ok_split:
+        pat, rep = const_value(subs[0].args[0], None), const_value(subs[0].args[1], None)
+        subject = flow.resolve(subs[0].args[2])
+        while isinstance(subject, ast.Call) and isinstance(subject.func, ast.Attribute) and subject.func.attr == 'strip' and not subject.args:
+            subject = flow.resolve(subject.func.value)
+        from_split = flow.reaches(subs[0].args[2], lambda m: m is split[0], depth=6)
+        if isinstance(pat, str) and isinstance(rep, str) and from_split:
+            # constant folding of the substitution over the spellings of a UTC offset
+            import re as _re
+            want = {'1990-01-01 00:00:00 +8': '1990-01-01 00:00:00 +08', '1990-01-01 00:00:00 -9': '1990-01-01 00:00:00 -09',
+                    '1990-01-01 00:00:00 +9:30': '1990-01-01 00:00:00 +09:30', '1990-01-01 12:00:00 -0:30': '1990-01-01 12:00:00 -00:30',
+                    '1990-01-01T00:00:00-9': '1990-01-01T00:00:00-09', '1990-01-01 00:00 +8': '1990-01-01 00:00 +08',
+                    '1990-01-01 00:00:00.5 +8': '1990-01-01 00:00:00.5 +08'}
+            same = ['1990-01-01 00:00:00 +10', '1990-01-01 00:00:00 +10:00', '1990-01-01T00:00:00+10:00', '1990-01-01 00:00:00 -0930', '1990-01-01 00:00:00',
+                    '1990-01-01', '0001-01-01 00:00:00', '1990-01-01 00:00:00Z', '1990-01-01 00:00:00 +08', '2021-11-11 10:20:30.25 -11:00']
+            try:
+                got = {k: _re.sub(pat, rep, k) for k in list(want) + same}
+                bad = [k for k in want if got[k] != want[k]] + [k for k in same if got[k] != k]
+                pad_ok, pad_why = not bad, (f"folded over {len(got)} spellings: all as required" if not bad else f"wrong for {bad[:3]}")
+            except _re.error as exc:
+                pad_why = f"pattern does not compile: {exc}"
+    ctx.check('R17.1', pad_ok, "a one digit hour in the UTC offset ('+8', '-9', '+9:30') is padded to two digits before cftime sees the string, and every other spelling is left as it is "
+              "(cftime reads a one digit hour as offset 0 without complaint, and the re-parse check compares cftime with cftime)", fi, subs[0] if subs else fi.node,
+              construct=f"re.sub on the date string: {pad_why}")
+
+    def normalised_date(e) -> bool:
+        """e is the padded date string (the re.sub result)."""
+        return bool(subs) and flow.reaches(e, lambda m: m is subs[0], depth=4) and not flow.reaches(e, lambda m: isinstance(m, ast.Call) and m is not subs[0]
+                                                                                                       and callee(ctx, fi, m) == 're.sub', depth=4)
+
+    def is_units(e) -> bool:
+        """e is the unit string that is parsed: '<period> since <padded date>' rebuilt from the split of the caller's units."""
+        v = flow.resolve(e)
+        if not isinstance(v, ast.JoinedStr):
+            return False
+        parts = [x for x in v.values]
+        if len(parts) != 3 or not isinstance(parts[1], ast.Constant) or parts[1].value != ' since ':
+            return False
+        a, b = parts[0], parts[2]
+        if not (isinstance(a, ast.FormattedValue) and isinstance(b, ast.FormattedValue)):
+            return False
+        ok_a = flow.reaches(a.value, lambda m: m is split[0], depth=4) if split else False
+        return ok_a and normalised_date(b.value)
+    ctx.check('R17.1', len(pc.args) == 1 and normalised_date(pc.args[0]), "the offset is parsed from that padded date string", fi, pc, construct=f"_parse_date({norm_text(pc.args[0]) if pc.args else ''})")
 
     sinks = []
     for n in ast.walk(fi.node):
@@ -160,7 +211,7 @@ def run(ctx: Context) -> None:
                           and kwarg(rep, 'tzinfo') is not None and norm_text(kwarg(rep, 'tzinfo')).endswith('UTC'))
                 ref = flow.resolve(rep.func.value) if ok_rep else None
                 ok_ref = (isinstance(ref, ast.Call) and (callee(ctx, fi, ref) or '').endswith('num2pydate') and len(ref.args) == 3
-                          and const_value(ref.args[0], None) == 0 and flow.canon(ref.args[1]) == ('param', fi.params[0])
+                          and const_value(ref.args[0], None) == 0 and is_units(ref.args[1])
                           and flow.canon(ref.args[2]) == ('param', fi.params[1]))
                 ok_epoch = ok_tz and ok_rep and ok_ref
             ctx.check('R17.2', ok_epoch, "the epoch is the original reference instant expressed in the parsed offset (unsigned change: FixedOffset(offset))", fi, rets[0],
@@ -204,7 +255,7 @@ def run(ctx: Context) -> None:
                                 and const_value(x.args[0], None) == 0 and flow.canon(x.args[1]) == flow.canon(rets[0].value) \
                                 and flow.canon(x.args[2]) == ('param', fi.params[1]) \
                                 and isinstance(y, ast.Call) and (callee(ctx, fi, y) or '').endswith('num2pydate') \
-                                and flow.canon(y.args[1]) == ('param', fi.params[0]):
+                                and is_units(y.args[1]):
                             guard = n
         ctx.check('R17.3', guard is not None, "the new string is re-parsed (same calendar) and compared with the original reference instant", fi,
                   guard or fi.node, construct=f"re-parse test: {norm_text(guard.test) if guard is not None else 'absent'}")
@@ -382,6 +433,10 @@ VARIANTS = [
     V('C17', 'time-bounds-taken-for-time', 'src/emsarray/conventions/_base.py', "            if name in bounds_names:\n                # The bounds of a time coordinate are decoded like the coordinate\n                continue\n", "", 'R17.5'),
     V('C17', 'bounds-names-from-data-vars', 'src/emsarray/utils.py', "        for variable in dataset.variables.values()\n        if 'bounds' in variable.attrs", "        for variable in dataset.data_vars.values()\n        if 'bounds' in variable.attrs", 'R17.5'),
     V('C17', 'abs-removed', _U, "divmod(abs(int(offset_total)), 60)", "divmod(int(offset_total), 60)", 'R17.1'),
+    V('C17', 'one-digit-offset-not-padded', _U, "    date_string = re.sub(\n        r'(:\\d{1,2}(?:\\.\\d+)?\\s*[+-])(\\d)(?=(:\\d\\d)?$)', r'\\g<1>0\\2', date_string.strip())\n", "    date_string = date_string.strip()\n", 'R17.1'),
+    V('C17', 'padding-only-after-blank', _U, "r'(:\\d{1,2}(?:\\.\\d+)?\\s*[+-])(\\d)(?=(:\\d\\d)?$)'", "r'(:\\d{1,2}(?:\\.\\d+)?\\s+[+-])(\\d)(?=(:\\d\\d)?$)'", 'R17.1'),
+    V('C17', 'reference-from-unpadded-units', _U, "    units = f'{period} since {date_string}'\n", "", ('R17.2', 'R17.3')),
+    V('C17', 'calendar-attribute-required', _U, "        if 'calendar' in variable.ncattrs():\n            calendar = cast(str, variable.getncattr('calendar'))\n        else:\n            calendar = DEFAULT_CALENDAR\n", "        calendar = cast(str, variable.getncattr('calendar') or DEFAULT_CALENDAR)\n", 'R17.6'),
     V('C17', 'hours-variable-width', _U, "f'{offset_sign}{offset_hours:02d}:{offset_minutes:02d}'", "f'{offset_sign}{offset_hours:d}:{offset_minutes:02d}'", 'R17.2'),
     V('C17', 'sign-from-hours', _U, "f'{offset_sign}{offset_hours:02d}:{offset_minutes:02d}'", "f'{offset_hours:+03d}:{offset_minutes:02d}'", 'R17.2'),
     V('C17', 'sign-inverted', _U, "offset_sign = '-' if offset_total < 0 else '+'", "offset_sign = '-' if offset_total > 0 else '+'", 'R17.2'),
